@@ -575,6 +575,7 @@ type RootObs struct {
 	Fsum string    `json:"fsum"` // hash of the whole projected forest of this root with RAW digests (for "unchanged" relations)
 	Kds  [][]int   `json:"kds"`  // maps with a table digester: digest vector of every key, in iteration order
 	F    []*Node   `json:"F"`    // exactly one node
+	Lk   int       `json:"lk"`   // bulk-built / copied maps: entries of the source that a lookup in the result finds
 }
 
 type StoreObs struct {
